@@ -14,7 +14,7 @@ use std::time::Duration;
 
 const PROFILE: &str = "wal@C03";
 const QUICK_RUNS: u64 = 600;
-const THOROUGH_RUNS: u64 = 3000;
+const THOROUGH_RUNS: u64 = 900;
 
 fn arg_value(args: &[String], flag: &str) -> Option<String> {
     args.iter().position(|a| a == flag).and_then(|i| args.get(i + 1).cloned())
@@ -56,7 +56,7 @@ fn cmd_check(args: &[String]) -> i32 {
         runs,
         workers: workers(),
         run_timeout: Duration::from_secs(if tier == Tier::Thorough { 300 } else { 120 }),
-        batch_budget: Duration::from_secs(if tier == Tier::Thorough { 1200 } else { 150 }),
+        batch_budget: Duration::from_secs(if tier == Tier::Thorough { 840 } else { 150 }),
         level: "fault_enumeration".into(),
         also_owns: vec![],
         min_budget_runs: if tier == Tier::Thorough { 600 } else { 300 },
